@@ -13,7 +13,7 @@
                                          instances are divided by eff_scale
                                        TopDownInferenceModel.forward (GroundTruth branch)
 
-   Quirk F61 (as coded): the centroids handed to FindInstancePeaksGroundTruth are already
+   Quirk F61 (pinned tree, before fix ca9ba93; `fixed = false`): the centroids handed to FindInstancePeaksGroundTruth are already
    in ORIGINAL pixels (divided by eff_scale) while batch["instances"] are still in
    size-matched pixels (multiplied by eff_scale): the distances mix two coordinate
    systems whenever eff_scale != 1.  `fixed` = behaviour after
